@@ -4,6 +4,12 @@ import lfht_common as L
 import lfhtx_common as X
 XPROGS = ['A0L0X/L0P2/L0X', 'A0L0P2/L0X/R7L0X', 'U0L0X/R2L0P7/L0XL0X', 'A0A2L0XL0X/L0P7L0X/L0NX']
 DPROGS = ['A3A6A9Z3Z0/TL6TL9T', 'U3U9Z3Z1/L9TL3T']
+# the owner of a deleted node waits for a grace period and releases it (op x): nobody may reach the node afterwards.  The deleter is suspended at every point while a
+# neighbour is inserted in front of the node, or its predecessor is deleted or replaced
+RPROGS = ['A3/L3x/A0/L3L0TL3', 'A0A3/L3x/L0X/L3L0TL3', 'A0A3/L3x/L0P2/TL3L0T', 'A9A4/L9x/A6A0/L9TL9', 'A0/L0x/A1/L0L1TL0', 'U4U3/L3x/L4XU0/L3TL3']
+def reclaim_cases(ctx):
+    return [(prog, '>0>0' + 'a' * 8 + '1b' * p + '>2>2>2' + 'c' * 8 + '>1>1' + 'b' * 8, cf) for prog in RPROGS for p in range(1, 60 if ctx.quick() else 140)
+            for cf in ([('1', '8', 'o')] if ctx.quick() else [('1', '8', 'o'), ('2', '8', 'o'), ('4', '8', 'c')])]
 PROGS = ['A0L0X/L0X/L0X', 'A0A1L0X/L0XL1X/L1XL0X', 'A0L0XL0X/L0XA1/L0X', 'A5A0/L5XL0X/L0XL5X/L5X']
 def run(ctx):
     ctx.cov['source_hash'] = source_hash(L.FILES)
@@ -17,6 +23,7 @@ def run(ctx):
     if ximpl:
         fdriver = build_model_driver(ctx, 'flagproto', 'ExtractFlagProto.v', 'flagproto_driver.ml')
         X.run_cases(ctx, 'ownership among del / replace / add_replace', ximpl, X.gen(ctx, XPROGS, 300 if ctx.quick() else 4000, 'C07x', [('2', '8', 'o'), ('1', '8', 'o')]), flag_driver=fdriver)
+        X.run_cases(ctx, 'a deleted node is unreachable after a grace period', ximpl, reclaim_cases(ctx))
         dcases = [(prog, '0' * p1 + '1' * w1 + '0000000001' * 60, ('2', '8', 'o')) for prog in DPROGS for p1 in range(60, 420, 4 if ctx.quick() else 1) for w1 in (4, 9, 15)]
         driver = build_model_driver(ctx, 'resizeproto', 'ExtractResizeProto.v', 'resizeproto_driver.ml')
         X.run_cases(ctx, 'released bucket tables are never touched again', ximpl, dcases, proto_driver=driver)
